@@ -38,6 +38,10 @@ impl<'a> vstd::std_specs::convert::FromSpecImpl<&'a Name> for Name {
     open spec fn from_spec(v: &'a Name) -> Name { *v }
 }
 
+// A-std: `ToOwned::to_owned` of a `Clone` type is `clone` (std's blanket impl)
+pub assume_specification<T: Clone> [ <T as std::borrow::ToOwned>::to_owned ](x: &T) -> (r: T)
+    ensures vstd::pervasive::cloned::<T>(*x, r);
+
 #[derive(Debug)]
 pub enum IggyError {
     InvalidIdentifier,
@@ -264,7 +268,7 @@ pub fn std_map_find_value<'a, K, V>(m: &'a HashMap<K, V>, Ghost(f): Ghost<spec_f
 pub fn std_map_find_value_mut<'a, K, V>(m: &'a mut HashMap<K, V>, Ghost(f): Ghost<spec_fn(K, V) -> bool>) -> (r: Option<&'a mut V>)
     ensures match r {
         Some(v) => exists|k: K| #[trigger] old(m)@.contains_key(k) && old(m)@[k] == *v && f(k, *v)
-                      && final(m)@ == old(m)@.insert(k, *final(v)),
+                      && final(m)@ == old(m)@.insert(k, *final(v)) && (*final(v) == *v ==> *final(m) == *old(m)),
         None => (forall|k: K| #[trigger] old(m)@.contains_key(k) ==> !f(k, old(m)@[k])) && *final(m) == *old(m),
     },
 { unimplemented!() }
